@@ -3,6 +3,7 @@ import Pymc.Proofs.FailoverDemo
 import Pymc.Proofs.HashCallExamples
 import Pymc.Proofs.HashCallSetExamples
 import Pymc.Proofs.HashPooledCallExamples
+import Pymc.Proofs.HashBroadcastExamples
 /-!
 # C13 — failover: bounded probing, eviction, rerouting, recovery
 
@@ -899,5 +900,225 @@ example : HashInner.ChronoCalls 0 HashPooledCallExamples.demoCalls ∧ RouteLaw 
     prefRoute_law, by decide, by decide +kernel⟩
 
 end hashpooled
+
+/-! ## `HashClient ∘ Client`: the broadcast operations `flush_all`, `quit`, `close` / `disconnect_all`
+
+Model: `Pymc/Model/HashBroadcast.lean`.  `for client in self.clients.values(): self._safely_run_func(client,
+client.<op>, False, …)`: no `_get_client`, so no key check, no `_retry_dead`, no routing — every client object registered
+in `self.clients` is handed to `_safely_run_func`, in registration order, *including those of servers that are out of
+rotation* (`remove_server` never deletes from `self.clients`), until an exception escapes.  On the key-addressed paths the
+`KeyError` / `ValueError` branches of the bookkeeping are unreachable (`C13_no_internal_error`) and the abstract model
+reports them as `internalError` without saying what the failing helper had already done.  A broadcast does reach
+`hasher.remove_node` for a node that is not in rotation, so `Pymc/Model/HashBroadcast.lean` transliterates `remove_server`,
+`_mark_failed_server` and `_safely_run_func` once more, statement by statement (`removeServerX`, `markFailedX`,
+`safelyRunFuncX`): `_failed_clients.pop(server)` and `_dead_clients[server] = time.time()` have happened when `remove_node`
+raises; a `ValueError` raised inside the `try` goes to `except Exception` (swallowed under `ignore_exc`), one raised inside
+the `except OSError` handler escapes whatever `ignore_exc` says.  `HashCall.runB` runs histories that mix key-addressed calls
+(`.keyed`, the calls of the previous section) and broadcasts. -/
+section hashbroadcast
+
+variable {RK : Type}
+
+/-- C13 (`HashClient ∘ Client`, broadcasts: who is visited).  In every history of key-addressed calls and broadcasts on a
+fresh `HashClient`, for every broadcast (call number `i`, made in the state `st` the first `i` calls lead to):
+`self.clients` holds every server once; the servers handed to `_safely_run_func` are an initial segment of the
+registration order `st.servers` — each registered client at most once, in registration order, whether or not its server is
+in rotation; no visit but the last ends in an escaping exception; the broadcast returns iff no visit does, and then every
+registered client was visited; otherwise its exception is that of the last visit and nothing after it was contacted. -/
+theorem C13_hash_broadcast_registration_order (ccfg : Wire.Cfg) (c : Cfg) (route : List Srv → RK → Option Srv)
+    (servers : List Srv) (t0 : Time) (calls : List (HashCall.BCall RK)) :
+    ∀ (i : Nat) (ob : HashCall.BcObs),
+      (HashCall.runB ccfg c route (HashCall.init servers t0) 0 calls).2[i]? = some (.broadcast ob) →
+      let st := (HashCall.runB ccfg c route (HashCall.init servers t0) 0 (calls.take i)).1
+      st.servers.Nodup ∧
+      ob.visits.map (·.server) = st.servers.take ob.visits.length ∧
+      (ob.visits.map (·.server)).Nodup ∧
+      (∀ v ∈ ob.visits.dropLast, v.out.escapes = false) ∧
+      (ob.res = .done → ob.visits.length = st.servers.length ∧ ∀ v ∈ ob.visits, v.out.escapes = false) ∧
+      (ob.res ≠ .done →
+        ∃ v, ob.visits.getLast? = some v ∧ v.out.escapes = true ∧ ob.res = HashCall.BRes.ofOut v.server v.out) := by
+  intro i ob hi st
+  have hn : HashCall.NodupServers st :=
+    HashCall.runB_nodup ccfg c route (HashCall.init servers t0) 0 (calls.take i) (HashCall.nodup_init servers t0)
+  obtain ⟨bc, -, hob⟩ := HashCall.runB_getElem ccfg c route (HashCall.init servers t0) 0 calls i _ hi
+  cases bc with
+  | keyed mc => cases hob
+  | broadcast op scripts now =>
+    have hob' : ob = (HashCall.broadcastH ccfg c st (0 + i) now op scripts).2 := by
+      simp only [HashCall.callB] at hob
+      exact HashCall.XObs.broadcast.inj hob
+    obtain ⟨n, hnle, h1, h2, h3, h4⟩ :=
+      HashCall.bloop_visits ccfg c (0 + i) now op scripts st st.servers (fun s h => h)
+    have hv : ob.visits = (HashCall.bloop ccfg c (0 + i) now op scripts st st.servers).2.2 := by rw [hob']; rfl
+    have hr : ob.res = (HashCall.bloop ccfg c (0 + i) now op scripts st st.servers).2.1 := by rw [hob']; rfl
+    rw [← hv] at h1 h2 h3 h4
+    rw [← hr] at h3 h4
+    have hlen : ob.visits.length = n := by
+      have := congrArg List.length h1
+      simp only [List.length_map, List.length_take] at this
+      omega
+    refine ⟨hn, by rw [hlen]; exact h1, ?_, h2, fun hd => ?_, h4⟩
+    · rw [h1]; exact (List.take_sublist n _).nodup hn
+    · obtain ⟨ha, hb⟩ := h3 hd
+      exact ⟨by rw [hlen]; exact ha, hb⟩
+
+/-- non-vacuity: in `HashBroadcastExamples.bkCalls` (below) the broadcast is call 1; it visits server 0 only — of the two
+registered — because that visit ends in an exception -/
+example :
+    ∃ ob, (HashCall.runB {} HashBroadcastExamples.cfgZero prefRoute (HashCall.init [0, 1] 0) 0 HashBroadcastExamples.bkCalls).2[1]? =
+        some (.broadcast ob) ∧ ob.visits.map (·.server) = [0] ∧ ob.res = .bookkeeping 0 .valueError ∧
+      (HashCall.runB {} HashBroadcastExamples.cfgZero prefRoute (HashCall.init [0, 1] 0) 0
+        (HashBroadcastExamples.bkCalls.take 1)).1.servers = [0, 1] :=
+  ⟨_, rfl, by decide +kernel, by decide +kernel, by decide +kernel⟩
+
+/-- C13 (`HashClient ∘ Client`, broadcasts: the rotation).  From any state whatsoever (so: after any history) a broadcast
+brings no server into rotation and does not touch `_last_dead_check_time` (it never runs `_retry_dead`); and a *healthy*
+server — no failure record when the broadcast starts, and no visit to it during the broadcast raises an `OSError` — is
+still in rotation afterwards if it was before, still has no failure record, and its dead time, if it has one, is
+untouched.  (A server that has a failure record with its retries used up is evicted by the next `_safely_run_func` that
+sees it, here as on the key-addressed paths — before the function is even called.) -/
+theorem C13_hash_broadcast_rotation (ccfg : Wire.Cfg) (c : Cfg) (st : HashCall.St) (idx : Nat) (now : Time)
+    (op : HashCall.BOp) (scripts : Srv → Exchange.Script) :
+    let r := HashCall.broadcastH ccfg c st idx now op scripts
+    (∀ x, x ∈ r.1.fo.nodes → x ∈ st.fo.nodes) ∧
+    r.1.fo.lastDeadCheck = st.fo.lastDeadCheck ∧
+    (∀ x, amem x st.fo.failed = false → (∀ v ∈ r.2.visits, v.server = x → v.oserror = false) →
+      (x ∈ st.fo.nodes → x ∈ r.1.fo.nodes) ∧ amem x r.1.fo.failed = false ∧
+      alookup x r.1.fo.dead = alookup x st.fo.dead) := by
+  intro r
+  obtain ⟨h1, h2, -⟩ := HashCall.bloop_onlyNodes ccfg c idx now op scripts st st.servers
+  exact ⟨h1, h2, fun x hf hok => HashCall.bloop_healthy ccfg c idx now op scripts st st.servers x hf hok⟩
+
+/-- non-vacuity: in `HashBroadcastExamples.siegeCalls` server 1 is healthy throughout (its `flush_all` is answered `OK`)
+and stays in rotation, while server 0, down, goes out at the third broadcast -/
+example :
+    (HashCall.runB {} HashCallExamples.cfgIgnore prefRoute (HashCall.init [0, 1] 0) 0 HashBroadcastExamples.siegeCalls).1.fo =
+      { nodes := [1], failed := [], dead := [(0, 8)], lastDeadCheck := 0 } := by
+  decide +kernel
+
+/-- C13 (`HashClient ∘ Client`, broadcasts: **the bookkeeping error**, witness).  `retry_attempts = 0`, `ignore_exc = True`,
+servers 0 and 1, server 0 refuses connections.  Call 0, `get k` at t=0, is routed to server 0; the `OSError` evicts it at
+once (rotation `[1]`, dead since 0) and is swallowed.  Call 1, `flush_all()` at t=1, starts with the client of server 0 —
+still registered although out of rotation —; the connection is refused; `except OSError` → `_mark_failed_server` →
+`remove_server`: the failure record just created is popped, the dead time is reset to 1, and `hasher.remove_node` raises
+`ValueError("No such node …")` *inside the handler*: the broadcast escapes with the internal `ValueError` although
+`ignore_exc` is on, and server 1 — healthy, in rotation — is never flushed. -/
+theorem C13_hash_broadcast_bookkeeping_error_witness :
+    let calls := HashBroadcastExamples.bkCalls
+    let cfg := HashBroadcastExamples.cfgZero
+    let r := HashCall.runB {} cfg prefRoute (HashCall.init [0, 1] 0) 0 calls
+    cfg.ra = 0 ∧ cfg.ignoreExc = true ∧
+    (HashCall.runB {} cfg prefRoute (HashCall.init [0, 1] 0) 0 (calls.take 1)).1.fo =
+      { nodes := [1], failed := [], dead := [(0, 0)], lastDeadCheck := 0 } ∧
+    HashBroadcastExamples.xSummary r =
+      [(.inl .default, [(0, some 0)]),
+       (.inr (.bookkeeping 0 .valueError), [(0, some 0)])] ∧
+    r.1.fo = { nodes := [1], failed := [], dead := [(0, 1)], lastDeadCheck := 0 } := by
+  refine ⟨rfl, rfl, by decide +kernel, by decide +kernel, by decide +kernel⟩
+
+/-- C13 (`HashClient ∘ Client`, broadcasts: the bookkeeping error inside the `try`, witness).  `retry_attempts = 1`, server
+0 down, five `flush_all()` two ticks apart (`HashBroadcastExamples.siegeCalls`): marked, retried, evicted (final probe
+refused: a new failure record for a server that is now out of rotation), retried, and at the fifth broadcast the attempts
+are used up again: `remove_server(0)` *inside the `try`* pops the record, resets the dead time to 8 and raises the
+`ValueError`.  With `ignore_exc=True` `except Exception` swallows it: `flush_all` is not sent to server 0, the loop goes on
+to server 1 and returns `None`; with `ignore_exc=False` the broadcast escapes with the internal `ValueError` (the first four
+with the `OSError` of server 0). -/
+theorem C13_hash_broadcast_bookkeeping_error_in_try_witness :
+    HashBroadcastExamples.xSummary
+        (HashCall.runB {} HashCallExamples.cfgIgnore prefRoute (HashCall.init [0, 1] 0) 0 HashBroadcastExamples.siegeCalls) =
+      [(.inr .done, [(0, some 0), (1, some 1)]), (.inr .done, [(0, some 0), (1, some 1)]),
+       (.inr .done, [(0, some 0), (1, some 1)]), (.inr .done, [(0, some 0), (1, some 1)]),
+       (.inr .done, [(0, none), (1, some 1)])] ∧
+    (HashCall.runB {} HashCallExamples.cfgIgnore prefRoute (HashCall.init [0, 1] 0) 0 (HashBroadcastExamples.siegeCalls.take 4)).1.fo =
+      { nodes := [1], failed := [(0, 1, 6)], dead := [(0, 4)], lastDeadCheck := 0 } ∧
+    (HashCall.runB {} HashCallExamples.cfgIgnore prefRoute (HashCall.init [0, 1] 0) 0 HashBroadcastExamples.siegeCalls).1.fo =
+      { nodes := [1], failed := [], dead := [(0, 8)], lastDeadCheck := 0 } ∧
+    HashBroadcastExamples.xSummary
+        (HashCall.runB {} HashCallExamples.cfgStrict prefRoute (HashCall.init [0, 1] 0) 0 HashBroadcastExamples.siegeCalls) =
+      [(.inr (.raised 0 (.sock 61)), [(0, some 0)]), (.inr (.raised 0 (.sock 61)), [(0, some 0)]),
+       (.inr (.raised 0 (.sock 61)), [(0, some 0)]), (.inr (.raised 0 (.sock 61)), [(0, some 0)]),
+       (.inr (.bookkeeping 0 .valueError), [(0, none)])] := by
+  refine ⟨by decide +kernel, by decide +kernel, by decide +kernel, by decide +kernel⟩
+
+/-- C13 (`HashClient ∘ Client`, broadcasts: **exactly when** the bookkeeping raises `ValueError`).  From any state, the
+`_safely_run_func` a broadcast runs for the client `cl` of server `s` ends in the `ValueError` of
+`hasher.remove_node` iff one of:
+1. `s` has no failure record, `retry_attempts = 0`, `s` is out of rotation and the function called on the client raises an
+   `OSError` (`HashCall.FuncOSError`): raised inside the `except OSError` handler — it escapes whatever `ignore_exc` says
+   (the witness above);
+2. `s` has a failure record with its attempts used up, `s` is out of rotation, and `ignore_exc` is off: raised by the
+   `remove_server` inside the `try`, re-raised by `except Exception` (with `ignore_exc` on it is swallowed, second witness);
+3. `s` has a failure record with its attempts used up and is in rotation exactly once, `retry_attempts = 0`, and the
+   function raises an `OSError`: the `remove_server` inside the `try` takes `s` out, the one in the handler no longer finds
+   it (a state with a failure record under `retry_attempts = 0` does not arise from `init`: `_mark_failed_server` pops the
+   record at once).
+In every case the failure record of `s` is gone and its dead time is `now` (`HashCall.removeServerX`). -/
+theorem C13_hash_broadcast_bookkeeping_error_iff (ccfg : Wire.Cfg) (c : Cfg) (idx : Nat) (now : Time) (st : HashCall.St)
+    (s : Srv) (cl : HashCall.IClient) (op : HashCall.BOp) (sc : Exchange.Script) :
+    (HashCall.safelyRunFuncX ccfg c idx now st s cl op sc).2.1 = .bookkeeping .valueError ↔
+      (alookup s st.fo.failed = none ∧ c.ra = 0 ∧ s ∉ st.fo.nodes ∧ HashCall.FuncOSError ccfg idx st s cl op sc) ∨
+      (∃ a t, alookup s st.fo.failed = some (a, t) ∧ ¬ a < c.ra ∧ s ∉ st.fo.nodes ∧ c.ignoreExc = false) ∨
+      (∃ a t, alookup s st.fo.failed = some (a, t) ∧ ¬ a < c.ra ∧ s ∈ st.fo.nodes ∧ c.ra = 0 ∧
+        s ∉ st.fo.nodes.erase s ∧ HashCall.FuncOSError ccfg idx st s cl op sc) :=
+  HashCall.safelyRunFuncX_valueError_iff ccfg c idx now st s cl op sc
+
+/-- non-vacuity: situation 1 in the state after call 0 of the witness history -/
+example :
+    let st := (HashCall.runB {} HashBroadcastExamples.cfgZero prefRoute (HashCall.init [0, 1] 0) 0
+      (HashBroadcastExamples.bkCalls.take 1)).1
+    (HashCall.safelyRunFuncX {} HashBroadcastExamples.cfgZero 1 1 st 0 { id := 0 } HashBroadcastExamples.flushOp
+      HashBroadcastExamples.down).2.1 = .bookkeeping .valueError := by
+  decide +kernel
+
+/-- C13 (`HashClient ∘ Client`, broadcasts: no `KeyError`).  From any state, the bookkeeping of a broadcast never raises
+`KeyError`: every `dict.pop` / `dict[...]` of `_safely_run_func`, `_mark_failed_server` and `remove_server` finds its key —
+for one `_safely_run_func`, for every visit of a broadcast, and for the broadcast as a whole: the only internal error a
+broadcast can end in is the `ValueError` of `remove_node`. -/
+theorem C13_hash_broadcast_no_key_error (ccfg : Wire.Cfg) (c : Cfg) (idx : Nat) (now : Time) (st : HashCall.St)
+    (op : HashCall.BOp) :
+    (∀ (s : Srv) (cl : HashCall.IClient) (sc : Exchange.Script),
+      (HashCall.safelyRunFuncX ccfg c idx now st s cl op sc).2.1 ≠ .bookkeeping .keyError) ∧
+    (∀ scripts : Srv → Exchange.Script,
+      (∀ v ∈ (HashCall.broadcastH ccfg c st idx now op scripts).2.visits, v.out ≠ .bookkeeping .keyError) ∧
+      ∀ s, (HashCall.broadcastH ccfg c st idx now op scripts).2.res ≠ .bookkeeping s .keyError) :=
+  ⟨fun s cl sc => HashCall.safelyRunFuncX_no_keyError ccfg c idx now st s cl op sc,
+    fun scripts => HashCall.bloop_no_keyError ccfg c idx now op scripts st st.servers⟩
+
+/-- non-vacuity: the broadcast of the witness history does end in an internal error — the `ValueError` -/
+example :
+    (HashCall.broadcastH {} HashBroadcastExamples.cfgZero
+      (HashCall.runB {} HashBroadcastExamples.cfgZero prefRoute (HashCall.init [0, 1] 0) 0
+        (HashBroadcastExamples.bkCalls.take 1)).1 1 1 HashBroadcastExamples.flushOp HashBroadcastExamples.srv0Down).2.res =
+      .bookkeeping 0 .valueError := by
+  decide +kernel
+
+/-- C13 (`HashClient ∘ Client`, broadcasts: the statement-by-statement model extends the key-addressed one).  For
+`flush_all` / `quit` (the operations that are a `Client.call`): whenever the key-addressed model of `_safely_run_func`
+(`HashCall.safelyRunFunc`, the one all theorems of the previous sections are about) does not answer `internalError`, the
+model used for broadcasts gives the same state, the same result (`HashCall.toBOut`) and the same inner call — the two
+differ only where the key-addressed one gives up. -/
+theorem C13_hash_broadcast_extends_keyed_model (ccfg : Wire.Cfg) (c : Cfg) (idx : Nat) (now : Time) (st : HashCall.St)
+    (s : Srv) (cl : HashCall.IClient) (op : HashCall.BOp) (call : Client.Call) (sc : Exchange.Script)
+    (hc : op.call? = some call)
+    (h : (HashCall.safelyRunFunc ccfg c idx now st s cl call sc).2.1 ≠ .internalError) :
+    HashCall.safelyRunFuncX ccfg c idx now st s cl op sc =
+      ((HashCall.safelyRunFunc ccfg c idx now st s cl call sc).1,
+        HashCall.toBOut (HashCall.safelyRunFunc ccfg c idx now st s cl call sc).2.1,
+        (HashCall.safelyRunFunc ccfg c idx now st s cl call sc).2.2,
+        (HashCall.safelyRunFunc ccfg c idx now st s cl call sc).2.2.isSome) :=
+  HashCall.safelyRunFuncX_agrees ccfg c idx now st s cl op call sc hc h
+
+/-- non-vacuity: on a fresh `HashClient` the key-addressed model answers `value`, not `internalError`; and in the state of
+the witness it does answer `internalError` — that is where the two models part -/
+example :
+    (HashCall.safelyRunFunc {} HashCallExamples.cfgStrict 0 0 (HashCall.init [0, 1] 0) 0 { id := 0 }
+      HashBroadcastExamples.flushCall HashBroadcastExamples.up).2.1 = .value (.bool true) ∧
+    (HashCall.safelyRunFunc {} HashBroadcastExamples.cfgZero 1 1
+      (HashCall.runB {} HashBroadcastExamples.cfgZero prefRoute (HashCall.init [0, 1] 0) 0
+        (HashBroadcastExamples.bkCalls.take 1)).1 0 { id := 0 }
+      HashBroadcastExamples.flushCall HashBroadcastExamples.down).2.1 = .internalError := by
+  refine ⟨by decide +kernel, by decide +kernel⟩
+
+end hashbroadcast
 
 end Failover
